@@ -194,7 +194,7 @@ func init() {
 	Register(&Engine{
 		ID:       "C03",
 		Anchors:  []string{"tree.go:Remove", "node.go:clean", "node.go:buildIndexes", "node.go:removeNodes", "tree.go:Routes", "tree.go:Clean"},
-		Cases:    histCases(1200, 30000),
+		Cases:    histCases(4000, 120000),
 		Run:      func(c *Ctx) { runHistory(c, "C03") },
 		Directed: c03Directed,
 		Rule: "case = history of 20-60 Handle/Remove/Clean/Prefix.Clean/Resource calls (router or facade) over a pool of 12-30 patterns with literal fans; after every step Routes() and ~100-150 probes (witness paths with digit values x methods, tricky and index-targeting paths) are judged by the definite/maybe oracle and the two history clauses; " +
@@ -213,7 +213,7 @@ func init() {
 	Register(&Engine{
 		ID:       "C04",
 		Anchors:  []string{"method.go:buildMethods", "method.go:AllowHeader", "method.go:Methods", "method.go:recountMethods", "node.go:splitNode"},
-		Cases:    histCases(1200, 24000),
+		Cases:    histCases(4000, 400000),
 		Run:      func(c *Ctx) { runHistory(c, "C04") },
 		Directed: c04Directed,
 		Rule: "case = same history generator as C03; after every step, for every live pattern, OPTIONS and an unregistered method on its witness path: Allow as written by the builder-captured node, Node().AllowHeader()/Methods() at dispatch, captured node Methods(), Routes() all compared (as sets) with the model; OPTIONS * on path \"*\" and \"\"; " +
@@ -229,7 +229,7 @@ func init() {
 	Register(&Engine{
 		ID:       "C17",
 		Anchors:  []string{"tree.go:Add", "tree.go:checkMethods", "node.go:checkAmbiguous", "segment.go:Segment.IsAmbiguousPrefix", "method.go:addMethods"},
-		Cases:    histCases(1200, 24000),
+		Cases:    histCases(4000, 240000),
 		Run:      func(c *Ctx) { runHistory(c, "C17") },
 		Directed: c17Directed,
 		Rule: "case = same history generator with 30% Handle calls built to be rejected (bad method at any list position, duplicate of a live method, repeated method, name-only twin); every rejected call is bracketed by two snapshots (Routes() + all probes incl. tricky paths + Allow) that must be equal, and every accept/reject must be justified by the model; " +
